@@ -120,6 +120,9 @@ func hostileRaw(t *rapid.T, x *Exec, viaRPC bool) (desc string, outcome CallOutc
 	dop := nt.Diropargs3{Dir: fh, Name: name}
 	var call func()
 	procs := []string{"GETATTR", "LOOKUP", "ACCESS", "READLINK", "READ", "READDIR", "READDIRPLUS", "FSSTAT", "FSINFO", "PATHCONF", "COMMIT", "NULL", "MOUNT"}
+	if valid != nil {
+		procs = append(procs, "WRITE0") // an empty WRITE cannot change the abstract state either
+	}
 	if valid == nil {
 		procs = append(procs, "SETATTR", "WRITE", "CREATE", "MKDIR", "SYMLINK", "MKNOD", "REMOVE", "RMDIR", "RENAME", "LINK")
 	}
@@ -196,6 +199,14 @@ func hostileRaw(t *rapid.T, x *Exec, viaRPC bool) (desc string, outcome CallOutc
 		data := make([]byte, dl)
 		call = func() {
 			api.NFSPROC3_WRITE(nt.WRITE3args{File: fh, Offset: nt.Offset3(off), Count: nt.Count3(cnt), Stable: st, Data: data})
+		}
+	case "WRITE0":
+		// otherwise well-formed, nothing to write, and a stability word inside or outside the enumeration
+		off := uint64(pick(t, []int{0, 0, 1, 4096, 100000}, "off0"))
+		st := nt.Stable_how(pick(t, []uint32{0, 1, 2, 3, 4, 7, 1 << 31, 1<<32 - 1}, "stable0"))
+		desc = fmt.Sprintf(" off=%d cnt=0 len=0 stable=%d", off, st)
+		call = func() {
+			api.NFSPROC3_WRITE(nt.WRITE3args{File: fh, Offset: nt.Offset3(off), Count: 0, Stable: st, Data: []byte{}})
 		}
 	case "CREATE":
 		mode := nt.Createmode3(rapid.IntRange(0, 3).Draw(t, "mode"))
